@@ -19,7 +19,7 @@ RULE = ("(rt) fields on 1-4-d meshes (cell counts incl. 1, renamed dims, per-axi
         "with attrs complete, EVERY subset of cell/pmin/pmax removed, tolerance_factor / one coordinate's units / the label "
         "coordinate / everything removed; exact regime (dyadic geometry: equality with the rational model) and tolerance regime "
         "(scales 1e-12..1e6, offsets up to 1000 cells: 16u bound); (uneven) one coordinate shifted by 0.3/0.05/0.01 cell (clear "
-        "reject side of np.allclose) or 1e-8/1e-9 cell (clear accept side) at scales 1e-12..1e6; (hand) hand-built DataArrays "
+        "reject side of the relative spacing test rtol=1e-5) or 1e-8/1e-9 cell (clear accept side) at ALL scales 1e-12..1e6; (hand) hand-built DataArrays "
         "(arange/int coordinates, missing coordinates, consistent or inconsistent attrs); (bad) missing/zero/negative/float/"
         "numpy nvdim, vector without vdims axis, non-DataArray argument, wrong/scaled cell, shifted pmax, swapped corners, "
         "duplicate labels, nvdim != axis length, transposed axes, dropped coordinate, dimension called 'vdims', non-string "
@@ -36,12 +36,10 @@ ASSUMPTIONS = ["exact regime: dyadic corners and cells, every binary64 operation
                "continuous outputs within 16*2^-53*max(|pmin|,|pmax|,edge)",
                "component labels never collide with Field attribute names (the vdims setter's hasattr test is not modelled); "
                "label coordinates are strings, dimension coordinates numeric",
-               "cases whose largest spacing deviation is within a factor 3.3 of np.allclose's threshold are not compared "
+               "cases whose largest spacing deviation is within a factor 3.3 of the spacing threshold 1e-5*|mean| are not compared "
                "(incidental threshold)"]
 UNPROVED = ["labels of a vector field WITHOUT labels (vdims=[]) are not preserved: the importer assigns the defaults "
             "(xa_roundtrip_unlabelled proves this of the model; finding D81)",
-            "'unevenly spaced coordinates are rejected' is FALSE of the code at spacings below ~1e-8 (np.allclose's absolute "
-            "tolerance): spacing_blind_below_atol proves the model accepts ANY coordinates there (finding D82)",
             "unit, validity mask, bc, subregions and vdim_mapping are not restored by from_xarray (not in the property's list; "
             "observation)"]
 BUDGET = {"quick": 85, "thorough": 800}
@@ -398,14 +396,15 @@ def run_rt(case, obs, fail):
 
 
 def unevenness(vals):
-    """(largest |d - mean| / |mean|, largest |d - mean| / (1e-8 + 1e-5|mean|)) exactly"""
+    """(largest |d - mean| / |mean|, largest |d - mean| / (1e-5|mean|)) exactly: the spacing test is purely relative"""
     v = [Fraction(float(x)) for x in vals]
     if len(v) < 2:
         return Fraction(0), Fraction(0)
     d = [b - a for a, b in zip(v, v[1:])]
     mean = sum(d) / len(d)
     dev = max(abs(x - mean) for x in d)
-    return (dev / abs(mean) if mean != 0 else Fraction(10 ** 9)), dev / (Fraction(1, 10 ** 8) + Fraction(1, 10 ** 5) * abs(mean))
+    rel = dev / abs(mean) if mean != 0 else Fraction(10 ** 9)
+    return rel, rel * 10 ** 5
 
 
 def run_uneven(case, obs, fail):
@@ -430,8 +429,7 @@ def run_uneven(case, obs, fail):
     obs["near"] = near
     if not near and rel > Fraction(1, 1000) and g is not None:
         fail(f"unevenly spaced coordinates accepted: {d} = {xa2[d].values.tolist()} (relative unevenness {float(rel):.3g}, "
-             f"deviation/np.allclose threshold {float(ratio):.3g}); mesh built: pmin={g.mesh.region.pmin.tolist()} n={g.mesh.n.tolist()}")
-    obs["blind"] = bool(ratio <= 1)
+             f"deviation/threshold {float(ratio):.3g}); mesh built: pmin={g.mesh.region.pmin.tolist()} n={g.mesh.n.tolist()}")
     obs["tags"] += ["delta:" + case["delta"], f"regime:{geom['regime']}", "near-threshold-skipped" if near else ("rejected" if g is None else "accepted"),
                     "rel>1e-3" if rel > Fraction(1, 1000) else "rel<=1e-3"]
     obs["nontrivial"] = not near
@@ -716,7 +714,7 @@ def compare(case, obs, rs):
         if m_ok != (imp["err"] is None):
             marg = [F(x) for x in r.get("margin", [])]
             if any(Fraction(999, 1000) <= x <= Fraction(1001, 1000) for x in marg):
-                continue    # on np.allclose's threshold: either outcome
+                continue    # on the spacing threshold: either outcome
             dis.append(f"import[{imp['name']}]: impl {'ok' if imp['err'] is None else 'err ' + imp['err']} vs model {'ok' if m_ok else r}")
         elif m_ok:
             cmp_fld(f"import[{imp['name']}]", imp["field"], r["ok"], bnd, dis)
@@ -734,12 +732,6 @@ def known(case, text):
         fs = case["fs"]
         if (fs["nvdim"] > 1 and fs["labels"] == []) or (fs["nvdim"] == 1 and fs["labels"]):
             return "D81"
-    # D82: coordinates with relative unevenness > 1e-3 are accepted when every spacing deviates from the mean by less than
-    # np.allclose's threshold, which for spacings below ~1e-5 is its ABSOLUTE term 1e-8 (ratio < 1 = the test passes)
-    if case["kind"] == "uneven" and text.startswith("unevenly spaced coordinates accepted"):
-        m = re.search(r"deviation/np\.allclose threshold ([0-9.e+-]+)\)", text)
-        if m and float(m.group(1)) < 1:
-            return "D82"
     return None
 
 
